@@ -76,7 +76,7 @@ func checkC18(r *core.Run) {
 	r.Rule("R-C18-locks", "in every function reachable from the message dispatch, a mutex acquired is released on every return, never re-acquired while held, and no explicit panic occurs while it is held without a deferred release")
 	r.Rule("R-C18-nil", "the session key (aesData) exists only after an authenticated handshake, but the 'encrypted' bit of a message header is set by the peer: every dereference of the key is preceded by a nil test of it, in the same function or at every call site")
 	r.Explain = "Static: SSA-level lock-set dataflow and linear bounds entailment over the closure of the peer message dispatch; check/use rule for the optional session key."
-	r.NotCov = "Unbounded CPU/memory growth across messages, FetchMessage's cross-call buffer state machine, panics other than index/slice/alloc/explicit panic (nil map writes, type assertions), peer-penalty policy."
+	r.NotCov = "Unbounded CPU/memory growth across messages, FetchMessage's cross-call buffer state machine, panics other than index/slice/alloc/explicit panic and unchecked type assertions in client/network (nil map writes, type assertions), peer-penalty policy."
 	p := load(r, core.LoadOpts{})
 	if p == nil {
 		return
@@ -89,6 +89,7 @@ func checkC18(r *core.Run) {
 	c18NilKey(r, p)
 	c18Rings(r, p)
 	c18TxListMarker(r, p, "R-C18-nil")
+	c18TypeAssertions(r, p, "R-C18-nil", an.StaticReach([]*ssa.Function{run}, true, nil))
 	// a panic in a goroutine started by the block parser cannot be recovered by the connection's handler (shared with C09)
 	c09Workers(r, p, "R-C18-bounds")
 	cfg := an.BoundsConfig{
@@ -442,4 +443,108 @@ func c18TxListMarker(r *core.Run, p *core.Program, rule string) {
 		})
 	}
 	r.Check(n >= 1, rule, "tx-list-marker/sites", "-", fmt.Sprintf("%d resets of a block's transaction list", n), "no reset of a block's transaction list found")
+}
+
+// c18TypeAssertions: a type assertion without the comma-ok form panics when the value has another dynamic
+// type.  In the peer message handlers (client/network, everything reachable from the connection loop) the
+// elements of a compact block's transaction table are []byte once known and a short id (uint64) while still
+// missing - which of the two depends on what peers sent.  Every such assertion must be preceded, on every path,
+// by a test that establishes the type: it is dominated by the successful outcome of a comma-ok assertion of the
+// same value to the same type (a type switch compiles to these), or, for a table walked in a loop, the function
+// is only called after a walk that returned on the first element of another type.
+func c18TypeAssertions(r *core.Run, p *core.Program, rule string, reach map[*ssa.Function]bool) {
+	n := 0
+	for _, fn := range p.ModuleFuncs() {
+		if !reach[fn] || fn.Pkg == nil || !strings.HasSuffix(fn.Pkg.Pkg.Path(), "client/network") {
+			continue
+		}
+		k := 0
+		an.Instrs(fn, func(i ssa.Instruction) {
+			ta, ok := i.(*ssa.TypeAssert)
+			if !ok || ta.CommaOk {
+				return
+			}
+			n++
+			k++
+			key := fmt.Sprintf("type-assertion/%s#%d", core.FuncName(fn), k)
+			// established by a dominating comma-ok assertion of the same value to the same type
+			okDom := false
+			for _, dc := range an.DomConds(ta.Block()) {
+				ex, isEx := dc.If.Cond.(*ssa.Extract)
+				if !isEx || ex.Index != 1 || !dc.True {
+					continue
+				}
+				if t2, isTA := ex.Tuple.(*ssa.TypeAssert); isTA && t2.X == ta.X && types.Identical(t2.AssertedType, ta.AssertedType) {
+					okDom = true
+				}
+			}
+			if okDom {
+				r.OK(rule, key, p.Pos(ta.Pos()), "dominated by a successful comma-ok assertion")
+				return
+			}
+			// established for all elements by the callers: each call of fn is dominated, in its caller, by a
+			// call of a function that checks the table (c18TableComplete)
+			if c18CallersCheckTable(p, fn) {
+				r.OK(rule, key, p.Pos(ta.Pos()), "every caller has verified that all elements have this type")
+				return
+			}
+			r.Fail(rule, key, p.Pos(ta.Pos()), "the value "+an.Anon(an.Expr(ta.X))+" is asserted to be "+ta.AssertedType.String()+" without a test of its dynamic type: what it holds depends on what peers sent (a blocktxn message with fewer transactions than requested leaves short ids in the table), and a wrong type panics in the handler")
+		})
+	}
+	r.Check(n >= 1, rule, "type-assertion/sites", "-", fmt.Sprintf("%d unchecked-form type assertions in the message handlers", n), "no type assertion found in the message handlers")
+}
+
+// c18CallersCheckTable: every call of fn in the module is preceded in its caller (dominating block, or
+// earlier in the same block) by a loop that leaves the function when a comma-ok assertion of an element of
+// the same table to []byte fails - or the caller has just filled every element itself (the "nothing missing"
+// branch of the compact block handler, recognised by the test missing == 0).
+func c18CallersCheckTable(p *core.Program, fn *ssa.Function) bool {
+	sites := 0
+	for _, caller := range p.ModuleFuncs() {
+		for _, c := range an.Calls(caller, false) {
+			if an.StaticCallee(c) != fn {
+				continue
+			}
+			sites++
+			ok := false
+			// (a) "missing == 0": all elements were resolved in this very function
+			for _, dc := range an.DomConds(c.Block()) {
+				x, y, rel, isCmp := dc.Cmp()
+				if !isCmp {
+					continue
+				}
+				if k, isC := an.ConstOf(y); isC && k.Sign() == 0 && rel == token.EQL && strings.Contains(an.Expr(x), "builtin.len(") {
+					ok = true // len(shortids) - found == 0
+				}
+			}
+			// (b) a dominating walk with a comma-ok assertion to []byte whose failure returns
+			an.Instrs(caller, func(i ssa.Instruction) {
+				ta, isTA := i.(*ssa.TypeAssert)
+				if !isTA || !ta.CommaOk || ta.AssertedType.String() != "[]byte" {
+					return
+				}
+				// the failing outcome must lead to a return without reaching the call
+				for _, ref := range *ta.Referrers() {
+					ex, isEx := ref.(*ssa.Extract)
+					if !isEx || ex.Index != 1 {
+						continue
+					}
+					for _, r2 := range *ex.Referrers() {
+						iff, isIf := r2.(*ssa.If)
+						if !isIf {
+							continue
+						}
+						fail := iff.Block().Succs[1]
+						if !reachesBlock(fail, c.Block()) && (iff.Block().Dominates(c.Block()) || reachesBlock(iff.Block(), c.Block())) {
+							ok = true
+						}
+					}
+				}
+			})
+			if !ok {
+				return false
+			}
+		}
+	}
+	return sites > 0
 }
